@@ -1,0 +1,24 @@
+//go:build verif
+
+package chain
+
+import (
+	"context"
+
+	"0chain.net/chaincore/block"
+	"0chain.net/chaincore/round"
+)
+
+// VerifUnitchainFinalizeRound exposes finalizeRound to the verification harness.
+func (c *Chain) VerifUnitchainFinalizeRound(ctx context.Context, r round.RoundI) { c.finalizeRound(ctx, r) }
+
+// VerifUnitchainNextFinalized receives the next block finalizeRound hands to the finalized-block worker
+// (the harness stands in for that worker) together with the channel on which the result must be reported.
+func (c *Chain) VerifUnitchainNextFinalized(ctx context.Context) (*block.Block, chan<- error) {
+	select {
+	case fbr := <-c.finalizedBlocksChannel:
+		return fbr.block, fbr.resultC
+	case <-ctx.Done():
+		return nil, nil
+	}
+}
